@@ -58,10 +58,12 @@ func checkC04(ctx *Ctx, r *Report) {
 	c04PathInvariant(ctx, r)
 	c04NilGuardedMembers(ctx, r, eng)
 	cfgNilEntries(ctx, r)
+	cfgNilMaps(ctx, r)
 	c04ConfigTypesValidated(ctx, r)
 	c04SharedNodes(ctx, r, g)
 	c04TemplateRecursion(ctx, r)
 	c20StrictHelper(ctx, r)
+	c04CueDepthBounded(ctx, r, g)
 }
 
 // ---------------------------------------------------------------------------
@@ -2192,4 +2194,83 @@ func typeSwitchCovers(info *types.Info, sw *ast.TypeSwitchStmt, ta *ast.TypeAsse
 		return true
 	}
 	return false
+}
+
+// c04CueDepthBounded: the CUE front-end walks values that CUE evaluates lazily: a definition that refines a
+// reference to itself (`Node: {children: [...Node & {leaf: bool}]}`) is not a reference any more and unfolds for ever —
+// a structural recursion over an infinite value, which the reference-following rule (cgraph/bounded-recursion) does
+// not see. The entry of that recursion, generator.declareNode, counts its nesting in a field of the generator,
+// restores it on exit and leaves with an error beyond a constant bound.
+func c04CueDepthBounded(ctx *Ctx, r *Report, g *callGraph) {
+	fn := ctx.LookupMethod("internal/simplecue", "generator", "declareNode")
+	fd, p := ctx.DeclOf(fn)
+	if fd == nil || fd.Body == nil {
+		r.Undecided("anchor lost: simplecue.generator.declareNode")
+		return
+	}
+	// it must be recursive at all for the obligation to make sense
+	recursive := false
+	for _, c := range g.sccs() {
+		in := false
+		for _, f := range c {
+			if f == fn {
+				in = true
+			}
+		}
+		if in && len(c) > 1 {
+			recursive = true
+		}
+	}
+	if !recursive {
+		r.OK("cgraph/cue-recursion-depth-bounded", "simplecue.generator.declareNode", fd.Pos(), "declareNode is not part of a recursive component")
+		return
+	}
+	info := p.TypesInfo
+	recv := info.Defs[fd.Recv.List[0].Names[0]]
+	var counter *types.Var
+	incAt, decDeferred, bounded := token.NoPos, false, false
+	errT := types.Universe.Lookup("error").Type()
+	ast.Inspect(fd.Body, func(n ast.Node) bool {
+		switch x := n.(type) {
+		case *ast.IncDecStmt:
+			if s, ok := ast.Unparen(x.X).(*ast.SelectorExpr); ok && isIdentOf(info, s.X, recv) {
+				if f := fieldOf(info, s); f != nil {
+					if x.Tok == token.INC && !incAt.IsValid() {
+						counter, incAt = f, x.Pos()
+					}
+				}
+			}
+		case *ast.DeferStmt:
+			ast.Inspect(x.Call, func(m ast.Node) bool {
+				if d, ok := m.(*ast.IncDecStmt); ok && d.Tok == token.DEC {
+					if f := fieldOf(info, d.X); f != nil && f == counter {
+						decDeferred = true
+					}
+				}
+				return true
+			})
+		case *ast.IfStmt:
+			if be, ok := ast.Unparen(x.Cond).(*ast.BinaryExpr); ok && (be.Op == token.GTR || be.Op == token.GEQ) {
+				if f := fieldOf(info, be.X); f != nil && f == counter && counter != nil {
+					if tv, ok := info.Types[be.Y]; ok && tv.Value != nil && blockReturnsError(info, x.Body, errT) {
+						bounded = true
+					}
+				}
+			}
+		}
+		return true
+	})
+	// the increment comes before any call back into the component
+	first := token.NoPos
+	ast.Inspect(fd.Body, func(n ast.Node) bool {
+		if c, ok := n.(*ast.CallExpr); ok && !first.IsValid() {
+			if f := callee(info, c); f != nil && f.Pkg() == p.Types && f != fn && strings.HasPrefix(f.Name(), "declare") {
+				first = c.Pos()
+			}
+		}
+		return true
+	})
+	ok := counter != nil && decDeferred && bounded && (!first.IsValid() || incAt < first)
+	r.Check(ok, "cgraph/cue-recursion-depth-bounded", "simplecue.generator.declareNode", fd.Pos(), "the nesting depth is counted, restored on exit and compared with a constant bound before the node is expanded",
+		"declareNode expands the value it is given without any bound on the nesting: CUE evaluates lazily, and `Node: {children: [...Node & {leaf: bool}]}` — a self-reference refined by a unification, which is no longer a reference — is unfolded until the stack overflows (a fatal error after ~14 s, or a hang with larger objects)")
 }
